@@ -4,7 +4,7 @@
    context, plus exhaustive small statement-level families (terminating statements / break-continue placement,
    := and unused variables, imports and top-level declarations, select/switch clause scoping, calls and
    multi-value forms, histories of one local name (B6), constant indexes of arrays (B7), package-level
-   initializers (B8)).  Every program is exported with the judgment's verdict.  The invariants are
+   initializers (B8), placement of fallthrough (B9)).  Every program is exported with the judgment's verdict.  The invariants are
    theorems of Go's type system that the judgment must satisfy on the whole space (symmetry of the
    symmetric operators, ==/!= and </>= duality, representability monotonicity, var/assign/argument coherence). *)
 EXTENDS Types, TypesCfg, TLC, Json, SequencesExt
@@ -67,6 +67,7 @@ Continue(l) == [k |-> "continue", label |-> l]
 Block(body) == [k |-> "block", body |-> body]
 Closure(res, body) == [k |-> "closure", res |-> res, body |-> body]
 Use(n) == [k |-> "use", name |-> n]
+FT == [k |-> "fallthrough"]
 TypeDecl(name) == [k |-> "typedecl", name |-> name]
 FL(p, ret, arg) == [k |-> "flcall", param |-> p, ret |-> ret, arg |-> arg]      \* func(p int) int { return ret }(arg)
 Nop == Assign(<<Id("vi")>>, <<LitI(1)>>)
@@ -504,9 +505,49 @@ PkgInitProgs ==
    Flat(Map1(X, LAMBDA x : Flat(Map1(Y, LAMBDA y : Flat(Map1(H, LAMBDA h : Flat(Map1(XT, LAMBDA xt :
         Map1(IF Tier = 1 THEN <<"xyh", "yxh">> ELSE <<"xyh", "yxh", "hxy">>, LAMBDA order : mk(x, y, h, xt, order))))))))))
 
+(* ---------------------------------------------------------------- B9: placement of `fallthrough`.
+   Every way of filling the clauses of a 2- and a 3-clause expression switch (without and with a tag, the default clause first,
+   in the middle, last or absent) with statement lists in which a fallthrough stands last, not last, twice, or inside an if / else /
+   block / for / function literal / nested switch / select / type switch of the clause; the same lists as clauses of a type switch
+   and of a select, as a for body and as the function body.  In a function with a result the lists also end in return / panic, so that
+   "a clause that ends in fallthrough" is exercised in the terminating-statement analysis. *)
+FtLists(res) == <<
+   <<Nop>>, <<FT>>, <<Nop, FT>>, <<FT, Nop>>, <<If(Id("vb"), <<FT>>)>>, <<Block(<<FT>>)>>, <<RetFor(res)>>,                      \* 1-7: the lists of the 3-clause switches
+   <<>>, <<FT, FT>>, <<IfElse(Id("vb"), <<Nop>>, <<FT>>)>>, <<Nop, Block(<<Nop, FT>>)>>, <<ForC(Id("vb"), <<FT>>)>>, <<Closure(<<>>, <<FT>>)>>,
+   <<RetFor(res), FT>>, <<If(Id("vb"), <<FT>>), FT>>,                                                                            \* 1-15: quick tier
+   \* ---- thorough tier only from here
+   <<IfElse(Id("vb"), <<FT>>, <<FT>>)>>, <<Block(<<FT>>), Nop>>, <<For(<<FT>>)>>, <<Panic, FT>>, <<Block(<<Block(<<FT>>)>>)>>,
+   <<Switch(<<Case(<<Id("vb")>>, <<FT>>), Dflt(<<>>)>>)>>, <<Switch(<<Case(<<Id("vb")>>, <<FT>>)>>)>>, <<Switch(<<Case(<<Id("vb")>>, <<FT>>), Dflt(<<>>)>>), FT>>,
+   <<Select(<<CDflt(<<FT>>)>>)>>, <<TSwitch("", Id("va"), <<TCase(<<"int">>, <<FT>>), TDflt(<<>>)>>)>>, <<IfInit(Define(<<"z">>, <<LitI(1)>>), Id("vb"), <<Use("z"), FT>>)>> >>
+\* clause heads: "C" case vb / "D" default (switch without tag);  "1" "2" "3" case 1 / 2 / 3 and "d" default (switch vi)
+FtClause(h, body) == CASE h = "C" -> Case(<<Id("vb")>>, body) [] h \in {"D", "d"} -> Dflt(body)
+                       [] h = "1" -> Case(<<LitI(1)>>, body) [] h = "2" -> Case(<<LitI(2)>>, body) [] h = "3" -> Case(<<LitI(3)>>, body)
+FtSwitch(hs, bodies) == LET cls == [j \in 1..Len(hs) |-> FtClause(hs[j], bodies[j])] IN
+                        IF hs[1] \in {"C", "D"} THEN Switch(cls) ELSE SwitchT(Id("vi"), cls)
+FtShapes2 == << <<"CC", <<"C", "C">> >>, <<"CD", <<"C", "D">> >>, <<"DC", <<"D", "C">> >>, <<"12", <<"1", "2">> >>, <<"d1", <<"d", "1">> >> >>
+FtShapes3 == << <<"CCC", <<"C", "C", "C">> >>, <<"CDC", <<"C", "D", "C">> >>, <<"123", <<"1", "2", "3">> >>,
+                <<"CCD", <<"C", "C", "D">> >>, <<"DCC", <<"D", "C", "C">> >> >>
+FtBodies(res) ==
+   LET L == IF Tier = 1 THEN SubSeq(FtLists(res), 1, 15) ELSE FtLists(res)
+       L3 == SubSeq(L, 1, IF Tier = 1 THEN 6 ELSE 7)
+       Sh3 == IF Tier = 1 THEN SubSeq(FtShapes3, 1, 3) ELSE FtShapes3
+       tsw(a, b) == TSwitch("", Id("va"), <<TCase(<<"int">>, a), TDflt(b)>>)
+       sel(a, b) == Select(<<CRecv(Id("vch"), a), CDflt(b)>>) IN
+   Flat(Map1(FtShapes2, LAMBDA sh : Pairs(L, L, LAMBDA a, b : <<sh[1], <<FtSwitch(sh[2], <<a, b>>)>> >>)))
+   \o Flat(Map1(Sh3, LAMBDA sh : Flat(Map1(L3, LAMBDA a : Pairs(L3, L3, LAMBDA b, c : <<sh[1], <<FtSwitch(sh[2], <<a, b, c>>)>> >>)))))
+   \o Map1(L, LAMBDA a : <<"C", <<FtSwitch(<<"C">>, <<a>>)>> >>)
+   \o Pairs(L, L, LAMBDA a, b : <<"tswitch", <<tsw(a, b)>> >>)
+   \o Pairs(L, L, LAMBDA a, b : <<"select", <<sel(a, b)>> >>)
+   \o Map1(L, LAMBDA a : <<"func", a>>)
+   \o Map1(L, LAMBDA a : <<"for", <<ForC(Id("vb"), a)>> >>)
+   \* a switch whose last clause is entered by fallthrough, followed by a statement: the switch is not the last statement
+   \o Map1(L, LAMBDA a : <<"CD;", <<FtSwitch(<<"C", "D">>, <<a, <<>> >>), Nop>> >>)
+FtProgs == Map1(FtBodies(<<>>), LAMBDA b : Prog("fallth", b[1], NoDesc, <<>>, b[2]))
+           \o Map1(SelectSeq(FtBodies(<<"int">>), LAMBDA b : b[1] \in {"CC", "CD", "DC", "CDC", "CCD", "C", "func"}), LAMBDA b : Prog("fallth", b[1], NoDesc, <<"int">>, b[2]))
+
 (* ---------------------------------------------------------------- the case set *)
 \* (new families are appended: the ids of the older programs do not change)
-Progs == ExprProgs \o TermProgs \o DeclProgs \o ImportProgs \o TopProgs \o ScopeProgs \o CallProgs \o MvProgs \o LifeProgs \o ArrProgs \o PkgInitProgs
+Progs == ExprProgs \o TermProgs \o DeclProgs \o ImportProgs \o TopProgs \o ScopeProgs \o CallProgs \o MvProgs \o LifeProgs \o ArrProgs \o PkgInitProgs \o FtProgs
 Verd3(v) == IF v = "ok" THEN "accept" ELSE IF v = "undef" THEN "undef" ELSE "reject"
 \* Progs is bound ONCE by the LET (a top-level reference would re-evaluate the whole sequence each time)
 Cases == LET P == Progs IN
@@ -574,6 +615,34 @@ AssignIrrelevant == n > 0 => LET p == prog IN
 \* an assignment is not a use and repairs nothing: a rejected history stays rejected when `a = 2` is appended
 AssignDoesNotRescue == n > 0 => LET p == prog IN
    (p.grp = "life" /\ AccI = "reject") => Acc([p EXCEPT !.body = @ \o <<Assign(<<Id("a")>>, <<LitI(2)>>)>>]) # "accept"
+\* in the fallthrough family (functions without a result) nothing but a misplaced fallthrough is wrong: the program with every
+\* fallthrough replaced by `vi = 1` is valid - so a rejection there is the fallthrough rule's, and no fallthrough is ever REQUIRED
+RECURSIVE FtErase(_)
+FtEraseCl(cls) == [j \in 1..Len(cls) |-> [cls[j] EXCEPT !.body = FtErase(@)]]
+FtErase(ss) == [j \in 1..Len(ss) |-> LET s == ss[j] IN
+   CASE s.k = "fallthrough" -> Nop
+     [] s.k \in {"block", "for", "closure"} -> [s EXCEPT !.body = FtErase(@)]
+     [] s.k = "if" -> [s EXCEPT !.then = FtErase(@), !.els = FtErase(@)]
+     [] s.k \in {"switch", "tswitch", "select"} -> [s EXCEPT !.clauses = FtEraseCl(@)]
+     [] OTHER -> s]
+FtOnlyCause == n > 0 => LET p == prog IN
+   (p.grp = "fallth" /\ p.res = <<>>) => Acc([p EXCEPT !.body = FtErase(@)]) = "accept"
+\* a fallthrough is never valid outside an expression switch, and at most one per non-final clause can be valid
+RECURSIVE FtCount(_), FtSlots(_)
+FtCount(ss) == IF Len(ss) = 0 THEN 0 ELSE LET s == ss[Len(ss)] r == FtCount(SubSeq(ss, 1, Len(ss) - 1)) IN
+   r + (CASE s.k = "fallthrough" -> 1
+          [] s.k \in {"block", "for", "closure"} -> FtCount(s.body)
+          [] s.k = "if" -> FtCount(s.then) + FtCount(s.els)
+          [] s.k \in {"switch", "tswitch", "select"} -> FtCount(Flat([j \in 1..Len(s.clauses) |-> s.clauses[j].body]))
+          [] OTHER -> 0)
+FtSlots(ss) == IF Len(ss) = 0 THEN 0 ELSE LET s == ss[Len(ss)] r == FtSlots(SubSeq(ss, 1, Len(ss) - 1)) IN
+   r + (CASE s.k \in {"block", "for", "closure"} -> FtSlots(s.body)
+          [] s.k = "if" -> FtSlots(s.then) + FtSlots(s.els)
+          [] s.k = "switch" -> (IF Len(s.clauses) = 0 THEN 0 ELSE Len(s.clauses) - 1) + FtSlots(Flat([j \in 1..Len(s.clauses) |-> s.clauses[j].body]))
+          [] s.k \in {"tswitch", "select"} -> FtSlots(Flat([j \in 1..Len(s.clauses) |-> s.clauses[j].body]))
+          [] OTHER -> 0)
+FtBounded == n > 0 => LET p == prog IN
+   (p.grp = "fallth" /\ AccI = "accept") => FtCount(p.body) <= FtSlots(p.body)
 \* a terminating body keeps a function with results well-formed exactly when the body without results is (placement)
 TermPlacement == n > 0 => LET p == prog IN
    (p.grp = "term" /\ p.res # <<>> /\ AccI = "accept") => IsTerm(p.body)
